@@ -97,6 +97,9 @@ func (s *FakeSMTP) handle(c net.Conn) {
 		switch {
 		case strings.HasPrefix(cmd, "EHLO"), strings.HasPrefix(cmd, "HELO"):
 			w("250 fake")
+		case strings.HasPrefix(cmd, "RCPT") && strings.Contains(cmd, "@REFUSE."):
+			// mailboxes of the refuse.* domains bounce: the mailer's error path
+			w("550 no such mailbox")
 		case strings.HasPrefix(cmd, "MAIL"), strings.HasPrefix(cmd, "RCPT"), strings.HasPrefix(cmd, "RSET"), strings.HasPrefix(cmd, "NOOP"):
 			w("250 ok")
 		case strings.HasPrefix(cmd, "DATA"):
